@@ -215,17 +215,74 @@ func C17(c *run.Check) {
 			}
 		}
 	}
-	for _, t := range []string{"<p>x</p>", "<html><body>x</body></html>", "", "x", "<!--c--><p>"} {
-		c.Evaluations.Add(1)
-		if cur, err := xsel.ReadHtml(strings.NewReader(t)); err == nil {
-			c.Violation(c17Case{Text: t, Detail: "no doctype"}, fmt.Sprintf("document without doctype %q accepted (%v)", t, cur))
+	// documents without a doctype: the statement is about documents that start
+	// with one; whether the others are rejected (the current code) or read is
+	// recorded, not judged - only that the call returns
+	{
+		rejected, accepted := 0, 0
+		for _, t := range []string{"<p>x</p>", "<html><body>x</body></html>", "", "x", "<!--c--><p>"} {
+			c.Evaluations.Add(1)
+			func() {
+				defer func() {
+					if r := recover(); r != nil {
+						c.Violation(c17Case{Text: t, Detail: "panic"}, fmt.Sprintf("document without doctype %q: ReadHtml panicked: %v", t, r))
+					}
+				}()
+				if _, err := xsel.ReadHtml(strings.NewReader(t)); err != nil {
+					rejected++
+				} else {
+					accepted++
+				}
+			}()
 		}
+		c.Set("documents_without_doctype", fmt.Sprintf("%d rejected with an error, %d read (not judged: outside the statement)", rejected, accepted))
+	}
+	// bytes and declared encodings: the tree is that of html.Parse for the SAME
+	// bytes - no transcoding, whatever a <meta> says and whatever the bytes are
+	{
+		metas := []string{"", `<meta charset="utf-8">`, `<meta charset="iso-8859-1">`, `<meta charset="windows-1251">`, `<meta charset="windows-1252">`, `<meta charset="shift_jis">`, `<meta charset="utf-16">`, `<meta charset="x-user-defined">`,
+			`<meta http-equiv="Content-Type" content="text/html; charset=iso-8859-2">`, `<meta http-equiv="content-type" content="text/html;charset=koi8-r">`, `<meta charset="no-such">`}
+		payloads := []string{"caf\xe9", "\xc3\xa9\xe2\x82\xac", "\x80\x9f", "\xff\xfe", "\xef\xbb\xbfx", "\xe2\x82", "a\x00b", "\xf0\x9f\x98\x80", "plain"}
+		boms := []string{"", "\xef\xbb\xbf", "\xff\xfe", "\xfe\xff"}
+		n := 0
+		for _, bom := range boms {
+			for _, m := range metas {
+				for _, pl := range payloads {
+					for _, text := range []string{
+						bom + "<!doctype html>" + m + "<p title=\"" + pl + "\">" + pl + "<!--" + pl + "--></p>",
+						bom + "<!doctype html><html><head>" + m + "<title>" + pl + "</title></head><body>" + pl + "</body></html>",
+					} {
+						if bom != "" {
+							// a byte order mark in front of the doctype: html.Parse (which does not
+							// decode) sees no doctype then; only that the call returns is judged
+							func() {
+								defer func() {
+									if r := recover(); r != nil {
+										c.Violation(c17Case{Text: text, Detail: "panic"}, fmt.Sprintf("%q: ReadHtml panicked: %v", text, r))
+									}
+								}()
+								xsel.ReadHtml(strings.NewReader(text))
+							}()
+							c.Evaluations.Add(1)
+							n++
+							continue
+						}
+						c.Evaluations.Add(1)
+						n++
+						if msg := c17Check(text); msg != "" {
+							c.Violation(c17Case{Text: text, Detail: msg}, fmt.Sprintf("%q: %s", text, msg))
+						}
+					}
+				}
+			}
+		}
+		c.Set("byte_and_declared_encoding_documents", n)
 	}
 	c.Sample("<!doctype html><table><td>t<svg></svg>")
 	c.Sample(`<!doctype html><a x=1 xmlns:q="u" q:y=2 xmlns="d"><p><!--c--></html>t`)
 	c.Set("token_alphabet", strings.Join(c17Tokens, " "))
 	c.Set("max_tokens", maxLen)
-	c.Rule = fmt.Sprintf("a doctype (bare, and with explicit html/head/body) followed by EVERY token string of length <=%d over an %d-token tag-soup alphabet (implied elements, void elements, tables, foreign content, attributes with xmlns declarations and prefixes, comments, text, content after </html> and </body>): cursor tree compared node by node with an independent recursive walk of golang.org/x/net/html's DOM for the same bytes; deep (<=5000) and wide families; documents without doctype must be errors; non-trivial = distinct sampled document", maxLen, nt)
+	c.Rule = fmt.Sprintf("a doctype (bare, and with explicit html/head/body) followed by EVERY token string of length <=%d over an %d-token tag-soup alphabet (implied elements, void elements, tables, foreign content, attributes with xmlns declarations and prefixes, comments, text, content after </html> and </body>): cursor tree compared node by node with an independent recursive walk of golang.org/x/net/html's DOM for the same bytes; deep (<=5000) and wide families; 4 byte-order marks x 11 <meta> charset declarations x 9 payloads of high, invalid and multi-byte bytes in text, attribute values and comments (the tree is that of html.Parse for the same bytes: no transcoding); documents without a doctype only have to return; non-trivial = distinct sampled document", maxLen, nt)
 	c.Assume("golang.org/x/net/html.Parse is the HTML5 parsing algorithm the statement names")
 }
 
